@@ -26,6 +26,7 @@ Kinds == {"assign", "annassign", "walrus", "tuple", "starred", "for", "with", "e
           "param", "kwonly", "vararg", "kwarg", "posonly", "def", "class",
           "import", "fromimport", "dotted", "aliased", "star", "future", "globaldecl",
           "nonlocaldecl",                  \* x = 0 in the enclosing function, `nonlocal x; x = 1` in the nested one: two bindings of one local of the outer function
+          "nonlocalread",                  \* the same, and the enclosing function reads x after calling the nested one: nothing is unused
           "dupimport", "aliasclash",       \* two bindings of one identifier in one statement: import x, x.sub / from os import x as y, y
           "fromalias", "fromalias_us",     \* from os import path as NAME / from os import _exit as NAME (the shape rule looks at NAME)
           "fortuple", "withtuple", "comptuple", "nestedtuple"}   \* the identifier inside a tuple target
@@ -39,11 +40,11 @@ FunctionLike == {"function", "method", "nested", "lambda", "inmethod", "lambdain
 Legal(k, s, sh) ==
   /\ (k \in ParamKinds => s \in {"function", "method", "nested", "lambda", "inmethod", "lambdainmethod"})      \* parameters belong to the function itself
   /\ (s \in {"lambda", "lambdainmethod"} => k \in ParamKinds \cup {"walrus", "comp"})                  \* a lambda body is one expression
-  /\ (k \in ParamKinds \cup {"globaldecl", "nonlocaldecl"} => s # "classinfunction")
+  /\ (k \in ParamKinds \cup {"globaldecl", "nonlocaldecl", "nonlocalread"} => s # "classinfunction")
   /\ (k = "future" => s = "module" /\ sh = "x")                                   \* from __future__ import only at module level
   /\ (k = "star" => s = "module" /\ sh = "x")
   /\ (k = "globaldecl" => s \in {"function", "method", "nested", "inmethod"})
-  /\ (k = "nonlocaldecl" => s \in {"nested", "inmethod"})                         \* needs an enclosing function that owns the name
+  /\ (k \in {"nonlocaldecl", "nonlocalread"} => s \in {"nested", "inmethod"})                         \* needs an enclosing function that owns the name
   /\ (k \in {"dotted", "dupimport", "aliasclash"} => sh = "x")
   /\ (k = "posonly" => s # "lambda" \/ TRUE)
 
@@ -52,7 +53,7 @@ Rows == {r \in [kind : Kinds, scope : Scopes, shape : Shapes] : Legal(r.kind, r.
 Underscore(sh) == sh \in {"_x", "__x__"}
 Expected(r) ==
   IF Underscore(r.shape) THEN "none"
-  ELSE IF r.kind = "globaldecl" THEN "none"
+  ELSE IF r.kind \in {"globaldecl", "nonlocalread"} THEN "none"
   ELSE IF r.scope \in FunctionLike THEN
        (IF r.kind \in ParamKinds /\ r.scope = "method" THEN "none" ELSE "W01")
   ELSE \* module or class level
